@@ -22,6 +22,7 @@ import (
 	"sort"
 	"strings"
 	"sync"
+	"sync/atomic"
 	"testing"
 	"testing/synctest"
 
@@ -49,6 +50,8 @@ type Read struct {
 	D   int `json:"d"`
 	PK  int `json:"pk"`
 	Sub int `json:"sub,omitempty"`
+	// K > 0: the reader's context cancels itself during its K-th Done()/Err() call.
+	K int `json:"k,omitempty"`
 }
 
 // Op is one scripted operation.
@@ -57,6 +60,11 @@ type Read struct {
 //	store  : Store(D, Es) from the harness goroutine
 //	cancel : cancel the context of reader R
 //	expire : send duty D on the deadliner channel
+//	cread  : start reader R with a context that cancels itself during its K-th Done()/Err() call
+//	         (a read racing with its own cancellation; it may return the value or the context
+//	         error), then check that the database loop still consumes messages (an expiry of the
+//	         unused duty 0 must be received)
+//	probe  : Store(D, {PK: V}) of a fresh key and an Await of it, started together: both must complete
 //	par    : start the readers Rs and a Store(D, Es) concurrently (store goroutine launched after
 //	         the first Pos readers), then wait for quiescence
 type Op struct {
@@ -68,6 +76,8 @@ type Op struct {
 	Es  []Entry `json:"es,omitempty"`
 	Rs  []Read  `json:"rs,omitempty"`
 	Pos int     `json:"pos,omitempty"`
+	K   int     `json:"k,omitempty"`
+	V   int     `json:"v,omitempty"`
 }
 
 // History is a script, the implementation it ran against and the labels observed.
@@ -203,6 +213,32 @@ type reader struct {
 	cancel context.CancelFunc
 }
 
+// cancelAtCtx cancels itself during its at-th Done()/Err() call: a deterministic scheduling point
+// inside Await (public API only) for reads that race with their own cancellation.
+type cancelAtCtx struct {
+	context.Context
+
+	cancel context.CancelFunc
+	calls  atomic.Int64
+	at     int64
+}
+
+func (c *cancelAtCtx) tick() {
+	if c.calls.Add(1) == c.at {
+		c.cancel()
+	}
+}
+
+func (c *cancelAtCtx) Done() <-chan struct{} {
+	c.tick()
+	return c.Context.Done()
+}
+
+func (c *cancelAtCtx) Err() error {
+	c.tick()
+	return c.Context.Err()
+}
+
 func keyTerm(d, pk, sub int) string { return fmt.Sprintf("(%d, %d)", d, pk*4+sub) }
 
 // runner executes one script against one implementation.
@@ -220,6 +256,8 @@ type runner struct {
 	anomaly []string
 	nextPro int
 	maxBlk  int
+	stop    chan struct{} // closed at the end of the history: releases harness goroutines that are still blocked
+	wedged  bool
 }
 
 func (x *runner) v1() bool { return x.impl == "v1" }
@@ -239,7 +277,11 @@ func (x *runner) anom(format string, a ...any) {
 }
 
 func (x *runner) start(rd Read) *reader {
-	ctx, cancel := context.WithCancel(x.root)
+	base, cancel := context.WithCancel(x.root)
+	var ctx context.Context = base
+	if rd.K > 0 {
+		ctx = &cancelAtCtx{Context: base, cancel: cancel, at: int64(rd.K)}
+	}
 	r := &reader{Read: rd, cancel: cancel}
 	x.open = append(x.open, r)
 	x.used[rd.R] = true
@@ -293,23 +335,28 @@ func (x *runner) collect() map[int]ret {
 func (x *runner) lookups(rs []*reader, got map[int]ret, wake bool) {
 	for _, r := range rs {
 		g, ok := got[r.R]
+		selfCancelled := ok && g.val < 0 && r.K > 0
 		if x.v1() {
 			if ok && g.val >= 0 {
 				x.emit("LAnswer %d %d", r.R, g.val)
+			} else if selfCancelled {
+				x.emit("LCancel %d", r.R)
 			}
 			continue
 		}
 		if wake {
 			x.emit("LWake %d", r.R)
 		}
-		if ok && g.val >= 0 {
+		if selfCancelled {
+			x.emit("LCancel2 %d", r.R)
+		} else if ok && g.val >= 0 {
 			x.emit("LLookup %d (Some %d)", r.R, g.val)
 		} else {
 			x.emit("LLookup %d None", r.R)
 		}
 	}
 	for _, r := range rs {
-		if g, ok := got[r.R]; ok && g.val < 0 {
+		if g, ok := got[r.R]; ok && g.val < 0 && r.K == 0 {
 			x.anom("reader %d returned a context error without being cancelled", r.R)
 		}
 	}
@@ -363,9 +410,66 @@ func (x *runner) opCancel(id int) {
 	}
 }
 
-func (x *runner) opExpire(d int) {
-	x.dl.ch <- toDuty(d)
+// deliver sends duty d on the deadliner channel from a goroutine and reports whether the database
+// loop received it by the next quiescent point.
+func (x *runner) deliver(d int) (bool, map[int]ret) {
+	var delivered atomic.Bool
+	go func() {
+		select {
+		case x.dl.ch <- toDuty(d):
+			delivered.Store(true)
+		case <-x.stop:
+		}
+	}()
 	got := x.collect()
+	return delivered.Load(), got
+}
+
+func (x *runner) wedge(format string, a ...any) {
+	x.wedged = true
+	x.anom("wedged: "+format, a...)
+}
+
+// opCread: a read that races with its own cancellation, then a liveness check of the loop.
+func (x *runner) opCread(rd Read) {
+	if x.used[rd.R] {
+		return
+	}
+	r := x.start(rd)
+	got := x.collect()
+	x.begin(rd)
+	x.lookups([]*reader{r}, got, false)
+	x.quiet()
+	ok, got2 := x.deliver(0)
+	if !ok {
+		x.wedge("after read %d (context cancelled during its Done/Err call number %d) the database loop no longer receives from the deadliner channel: every later Await and Store hangs", rd.R, rd.K)
+		return
+	}
+	if x.v1() {
+		x.emit("LExpire 0")
+	} else {
+		x.emit("LExpire2 0")
+	}
+	x.lookups(x.openBefore(got2), got2, false)
+	x.quiet()
+}
+
+// openBefore lists the readers that returned in got (they are no longer in x.open).
+func (x *runner) openBefore(got map[int]ret) []*reader {
+	var rs []*reader
+	for _, g := range got {
+		rs = append(rs, g.r)
+	}
+	sort.Slice(rs, func(i, j int) bool { return rs[i].R < rs[j].R })
+	return rs
+}
+
+func (x *runner) opExpire(d int) {
+	ok, got := x.deliver(d)
+	if !ok {
+		x.wedge("the database loop did not receive expired duty %d", d)
+		return
+	}
 	if x.v1() {
 		x.emit("LExpire %d", d)
 	} else {
@@ -404,10 +508,7 @@ func (x *runner) opStore(d int, es []Entry, rs []Read, pos int) {
 		storeDone bool
 		fresh     []*reader
 	)
-	if len(rs) == 0 {
-		storeErr = x.db.Store(x.root, toDuty(d), set)
-		storeDone = true
-	} else {
+	{
 		launch := func() {
 			go func() {
 				err := x.db.Store(x.root, toDuty(d), set)
@@ -436,7 +537,7 @@ func (x *runner) opStore(d int, es []Entry, rs []Read, pos int) {
 	done, err := storeDone, storeErr
 	x.mu.Unlock()
 	if !done {
-		x.anom("Store did not return")
+		x.wedge("Store(duty %d) did not return although every goroutine is blocked", d)
 		return
 	}
 	res := "WOk"
@@ -533,10 +634,22 @@ func (x *runner) opStore(d int, es []Entry, rs []Read, pos int) {
 
 func runScript(t *testing.T, impl string, script []Op) (labels []string, anomaly string, maxBlocked int) {
 	t.Helper()
+	// A database loop that is wedged for good (blocked on a channel nobody will ever use) cannot
+	// leave the bubble: synctest then panics with a deadlock report after the results were taken.
+	defer func() {
+		if p := recover(); p != nil {
+			if !strings.Contains(fmt.Sprint(p), "deadlock") {
+				panic(p)
+			}
+			if anomaly == "" {
+				anomaly = "wedged: goroutines of the database remain blocked for good after shutdown: " + fmt.Sprint(p)
+			}
+		}
+	}()
 	synctest.Test(t, func(t *testing.T) {
 		rootCtx, cancelRoot := context.WithCancel(context.Background())
 		dl := &scripted{ch: make(chan core.Duty), added: map[core.Duty]int{}}
-		x := &runner{t: t, impl: impl, dl: dl, root: rootCtx, results: map[int]*outcome{}, used: map[int]bool{}}
+		x := &runner{t: t, impl: impl, dl: dl, root: rootCtx, results: map[int]*outcome{}, used: map[int]bool{}, stop: make(chan struct{})}
 		if impl == "v1" {
 			x.db = aggsigdb.NewMemDB(dl)
 		} else {
@@ -556,15 +669,20 @@ func runScript(t *testing.T, impl string, script []Op) (labels []string, anomaly
 				x.opStore(op.D, op.Es, nil, 0)
 			case "par":
 				x.opStore(op.D, op.Es, op.Rs, op.Pos)
+			case "cread":
+				x.opCread(Read{R: op.R, D: op.D, PK: op.PK, Sub: op.Sub, K: op.K})
+			case "probe":
+				x.opStore(op.D, []Entry{{PK: op.PK, V: op.V}}, []Read{{R: op.R, D: op.D, PK: op.PK, Sub: subOf(op.D, op.V)}}, 0)
 			case "cancel":
 				x.opCancel(op.R)
 			case "expire":
 				x.opExpire(op.D)
 			}
 		}
+		labels, anomaly, maxBlocked = x.labels, strings.Join(x.anomaly, "; "), x.maxBlk
+		close(x.stop)
 		cancelRoot()
 		synctest.Wait()
-		labels, anomaly, maxBlocked = x.labels, strings.Join(x.anomaly, "; "), x.maxBlk
 	})
 
 	return labels, anomaly, maxBlocked
@@ -585,6 +703,7 @@ type gen struct {
 	duties  []int
 	pks     int
 	vals    int
+	nProbe  int
 }
 
 func newGen(r *rand.Rand) *gen {
@@ -691,6 +810,38 @@ func (g *gen) par(d int, es []Entry, n int) {
 	}
 }
 
+// cread: a read that cancels itself at its k-th Done()/Err() call, preferably of a present key.
+func (g *gen) cread(d, k int, present bool) {
+	rd := g.read(d)
+	if present {
+		var ks []gkey
+		for pk := 1; pk <= 63; pk++ {
+			for sub := 0; sub < 2; sub++ {
+				if _, ok := g.present[gkey{d, pk, sub}]; ok {
+					ks = append(ks, gkey{d, pk, sub})
+				}
+			}
+		}
+		if len(ks) > 0 {
+			c := ks[g.r.Intn(len(ks))]
+			rd.PK, rd.Sub = c.pk, c.sub
+		}
+	}
+	rd.K = k
+	g.ops = append(g.ops, Op{Op: "cread", R: rd.R, D: rd.D, PK: rd.PK, Sub: rd.Sub, K: k})
+	g.noteRead(rd)
+}
+
+// probe: a fresh key is stored and read at the same time; both must complete.
+func (g *gen) probe(d int) {
+	g.nProbe++
+	v := 1 + g.r.Intn(g.vals)
+	op := Op{Op: "probe", R: g.nextR, D: d, PK: 8 + g.nProbe, V: v}
+	g.nextR++
+	g.ops = append(g.ops, op)
+	g.present[gkey{d, op.PK, subOf(d, v)}] = v
+}
+
 func (g *gen) cancel() {
 	var ids []int
 	for r := range g.blocked {
@@ -733,8 +884,13 @@ func genScript(r *rand.Rand, kind string) []Op {
 				g.store(d, g.entries(d, 1, r.Intn(3) == 0))
 			case x < 66:
 				g.store(d, g.entries(d, 2+r.Intn(2), r.Intn(2) == 0))
-			case x < 76:
+			case x < 72:
 				g.cancel()
+			case x < 76:
+				g.cread(d, 1+r.Intn(4), r.Intn(3) > 0)
+				if r.Intn(3) == 0 {
+					g.probe(d)
+				}
 			case x < 84:
 				g.expire(d)
 			default:
@@ -805,6 +961,25 @@ func genScript(r *rand.Rand, kind string) []Op {
 		g.store(d, es2)
 		g.store(d, es)
 		g.await(d)
+	case "cancelrace": // reads of present keys racing with their own cancellation, then independent probes
+		d := g.duty()
+		g.pks = 1 + r.Intn(2)
+		g.store(d, g.entries(d, g.pks, false))
+		if r.Intn(2) == 0 {
+			g.await(g.duty()) // possibly a plain reader blocked on another key
+		}
+		ks := []int{2, 2, 2, 1, 3, 4}
+		n := 10 + r.Intn(30)
+		for i := 0; i < n; i++ {
+			g.cread(d, ks[r.Intn(len(ks))], r.Intn(6) > 0)
+			if r.Intn(10) == 0 {
+				g.store(d, g.entries(d, 1, r.Intn(2) == 0))
+			}
+		}
+		g.probe(d)
+		g.await(d)
+		g.store(d, g.entries(d, g.pks, true))
+		g.probe(g.duty())
 	case "par": // many concurrent readers racing with stores
 		d := g.duty()
 		g.pks = 1 + r.Intn(2)
@@ -819,7 +994,14 @@ func genScript(r *rand.Rand, kind string) []Op {
 }
 
 func corpus() [][]Op {
+	var wedge []Op // seeded C17-r2m2: reads of a stored key cancelled right after submission, then probes
+	wedge = append(wedge, Op{Op: "store", D: 40, Es: []Entry{{PK: 1, V: 1}}})
+	for i := 0; i < 24; i++ {
+		wedge = append(wedge, Op{Op: "cread", R: 1 + i, D: 40, PK: 1, K: 1 + (i+1)%2*1 + i%8/7*2})
+	}
+	wedge = append(wedge, Op{Op: "await", R: 100, D: 40, PK: 1}, Op{Op: "probe", R: 101, D: 40, PK: 9, V: 2})
 	return [][]Op{
+		wedge,
 		// F3: two readers wait for one key, one store (v2 before 8db1efa wakes only one)
 		{{Op: "await", R: 1, D: 41, PK: 1}, {Op: "await", R: 2, D: 41, PK: 1}, {Op: "store", D: 41, Es: []Entry{{PK: 1, V: 1}}}},
 		// F3: three readers over two keys; the token could go to the reader of the other key
@@ -883,6 +1065,8 @@ func TestGen(t *testing.T) {
 			kind = "expiry"
 		case x < 11:
 			kind = "par"
+		case x < 13:
+			kind = "cancelrace"
 		}
 		scripts = append(scripts, sc{kind, genScript(r, kind)})
 	}
